@@ -48,6 +48,16 @@ CFG = {
             "2 look-ahead ones exempt from the re-parse clause only) exhaustively on buffers of length <= 4 (quick) / <= 5 (thorough) over "
             "{A,B,C,0x80,1,blank} x every cursor, whole buffer and restricted view; all 14 binary integer parsers + byte vectors on random "
             "buffers of 0..9 bytes x every cursor, whole buffer and restricted view (values also cross-checked against the byte-order spec by C19). "
+            "number tokens at the seven 'numerical overflow' exits of IntegerP / RealP (built from the limits 2^63-1 and 2^127-1: 29 magnitudes per limit - "
+            "L-1..L+10, all ten last digits after L/10 (checked_add), (L/10+1)*10+d (checked_mul at the last digit), one and two digits more / fewer, powers of ten -, "
+            "the unsigned limits 2^64-1 / 2^128-1, each digit string also split by a decimal point at 7 places (thorough: every place) so that the overflow falls into "
+            "the fraction loop (numerator MUL / ADD), fractions of 17..40 zeros after a small numerator (denominator MUL: 10^38 fits, 10^39 does not), 250 (thorough 4000) "
+            "random tokens with digit runs of 0..2 / 18..20 / 37..41 digits) x {no sign, +, -} x leads x followers x cursor at and one byte into the token, under "
+            "int, real, obj:3, their restricted views and Sequence(IntegerP, WhitespaceNoEOL) (thorough: + 5 object composites): the failed parser must leave the cursor; "
+            "`#xx` codes in operator and name tokens at every distance from the token end: all sequences of <= 3 (thorough <= 4) pieces out of 13 (plain bytes incl. lone `#`, "
+            "hex digit, non-hex letter, raw UTF-8 lead byte; codes `#41 #4A #4a #00 #e9 #a9 #23`), one code after 0..5 and before 0..5 plain bytes, two codes 0..3 bytes "
+            "apart, x terminators, under op (cursor 0 and after a blank, restricted view), name and obj:3 (`/` + token): besides the location clauses the oracle checks "
+            "that the VALUE of a name / operator is the decoding of its reported span (independent left-to-right `#hh` decoder, class value-not-text-of-span); "
             "non-trivial = buffer of >= 2 bytes or non-zero cursor (counted distinct by hash of the case)",
     "trusted_base": COMMON_TB + [
         "modelled, not verified: ParseBuffer primitives as list functions on a whole buffer (views: C17); std::str::from_utf8 as validUtf8",
@@ -56,6 +66,10 @@ CFG = {
         "Model/Comb.lean to the textbook PEG semantics"],
     "assumptions": ["StreamContentT.start is location metadata: the re-parse clause compares it relative to the span start",
                     "scanners (value = skip count, span = skipped text) are exempt from the re-parse clause, not from the others",
+                    "names / operators: `the span is the text of the value` is read as value = span with every `#` + two hex digits replaced by the coded byte, "
+                    "left to right (names: after the `/`); whether the windows(3) loop computes that is Parsley.C02.name_window_decoder_eq",
+                    "the cursor after a FAILED parse_pdf_obj / parse_pdf_indirect_obj is not covered: these are not token-level parsers, most of their failure exits "
+                    "propagate a component's error without restoring (IndirectP restores only to the start of the offending header number)",
                     "nested located values inside a combinator value are compared re-based to the span start (Sh.down); Rust's PartialEq on "
                     "LocatedVal ignores locations altogether, so this is stronger than `equal value`",
                     "look-ahead composites violating the side conditions of the combinator theorems are exempt from the re-parse clause "
